@@ -118,6 +118,7 @@ pub fn key_apply_rule(cx: &Cx, rep: &mut Report) {
     // users: the key template applies the substitution to its own tokens with the operand as replacer
     let users: Vec<Rc<FnDef>> = ix.fns.values().flatten().filter(|f| f.qual != rt.qual && crate::roles::CallGraph::build(ix).edges.get(&f.qual).map(|e| e.contains(&rt.qual)).unwrap_or(false)).cloned().collect();
     let mut placeholder_strs = std::collections::BTreeSet::new();
+    let mut polarity_bad = std::collections::BTreeSet::new();
     let mut apply_seen = false;
     for u in &users {
         let ev = mk_ev(ix);
@@ -134,6 +135,21 @@ pub fn key_apply_rule(cx: &Cx, rep: &mut Report) {
                         if let Val::Closure(c) = &deps[1] {
                             let ev2 = mk_ev(ix);
                             let o2 = ev2.eval_expr({ let mut s = St::new(); s.env = c.env.clone(); s.env.push(Default::default()); if let Some(p) = c.params.first() { if let syn::Pat::Ident(pi) = p { s.bind(&pi.ident.to_string(), sym("TokenTree", "tok")); } } s }, &c.body);
+                            // polarity: the matcher says yes exactly on the paths where its comparison holds
+                            let mut yes = 0;
+                            for (s2, fl2) in &o2 {
+                                let eq_true = s2.cond.iter().any(|(a, b)| a.contains("==") && *b);
+                                let eq_false = s2.cond.iter().any(|(a, b)| a.contains("==") && !*b);
+                                match fl2 {
+                                    Flow::Val(Val::Bool(true)) => { yes += 1; if !eq_true || eq_false { unsafe_push("!polarity: the matcher accepts a token its comparison rejects"); } }
+                                    Flow::Val(Val::Bool(false)) => { if eq_true && !eq_false { unsafe_push("!polarity: the matcher rejects the token its comparison accepts"); } }
+                                    // undecided guard: the value is the comparison itself, which must be positive
+                                    Flow::Val(Val::Atom(F::A(a))) if a.contains("==") => { yes += 1; }
+                                    Flow::Val(Val::Atom(_)) => { unsafe_push("!polarity: the matcher's verdict is not its (positive) comparison"); }
+                                    _ => {}
+                                }
+                            }
+                            if yes == 0 { unsafe_push("!polarity: the matcher never accepts"); }
                             for (s2, _) in o2 { for a in s2.cond.keys() { if let Some(i) = a.find("==\"") { /* placeholder literal */ let lit = a[i + 3..].trim_end_matches('"').to_string(); unsafe_push(&lit); } } }
                         }
                     }
@@ -146,12 +162,13 @@ pub fn key_apply_rule(cx: &Cx, rep: &mut Report) {
                 if ok { apply_seen = true; }
             }
         }
-        for l in drain_pushed() { placeholder_strs.insert(l); }
+        for l in drain_pushed() { if let Some(m) = l.strip_prefix("!polarity: ") { polarity_bad.insert(format!("{}: {m}", u.qual)); } else { placeholder_strs.insert(l); } }
         // string constants reaching Ident::new in the `$` -> placeholder direction
         for (_, fl) in &outs { if let Flow::Val(v) = fl { v.any(&|x| { if let Val::Opaque { what, deps } = x { if what.contains("Ident::new") { if let Some(Val::Str(s)) = deps.first() { unsafe_push(s); } } } false }); } }
         for l in drain_pushed() { placeholder_strs.insert(l); }
     }
     rep.check(apply_seen, "TP-key-apply", "Template::apply", "apply-args", "the key template is not applied as substitution(template tokens, placeholder matcher, operand)", &site(&rt), json!({"users": users.iter().map(|u| u.qual.clone()).collect::<Vec<_>>()}));
+    rep.check(polarity_bad.is_empty(), "TP-key-apply", "matcher", "matcher-polarity", &format!("a token matcher of the key template does not accept exactly the tokens its comparison selects: {polarity_bad:?}"), &site(&rt), json!({}));
     rep.check(placeholder_strs.len() == 1, "TP-key-apply", "placeholder", "placeholder-agreement", &format!("the identifier `$` is parsed into and the identifier the key template looks for differ or were not found: {placeholder_strs:?}"), &site(&rt), json!({}));
 }
 
@@ -747,6 +764,33 @@ pub fn impl_helpers_rule(cx: &Cx, rep: &mut Report) {
 }
 
 /// every `bail!` carries a non-empty literal message
+/// DM-output-type: the `Output` carried over to the generated impls is the type of the user's associated type named
+/// `Output` (and only of that one); without it the impl is refused
+pub fn output_type_rule(cx: &Cx, rep: &mut Report) {
+    let ix = &cx.ix;
+    let Some(f) = find_fn(ix, &|f| f.self_ty.is_none() && sig_text(f).contains("&ItemImpl") && sig_text(f).ends_with("->Result<&Type>")) else {
+        rep.fail("unanalysable", "find_output_type", "not-found", "(&ItemImpl) -> Result<&Type> not found", "item_impl.rs", json!({})); return;
+    };
+    let ev = mk_ev(ix);
+    let outs = ev.call_fn(St::new(), &f, None, vec![sym("ItemImpl", "item_impl")]);
+    rep.unanalysable(&f.qual, &ev.unsupported.borrow());
+    let (mut ok_seen, mut err_seen, mut bad) = (false, false, Vec::new());
+    for (st, fl) in &outs {
+        let v = match fl { Flow::Val(v) | Flow::Ret(v) => v, _ => continue };
+        let named_output = st.cond.iter().find(|(a, _)| a.contains("==\"Output\"")).map(|(_, b)| *b);
+        let is_type = st.cond.iter().find(|(a, _)| a.ends_with(" is Type")).map(|(_, b)| *b);
+        match v {
+            Val::Enum { var, args, .. } if var == "Ok" => {
+                let from_same = args.first().map(|x| x.any(&|y| matches!(y, Val::Sym { path, .. } if path.contains("items[*]") && path.ends_with(".ty")))).unwrap_or(false);
+                if named_output == Some(true) && is_type == Some(true) && from_same { ok_seen = true; } else { bad.push(format!("returns {} under [{}]", args.first().map(|x| x.short()).unwrap_or_default(), crate::model::cond_str(&st.cond))); }
+            }
+            Val::Enum { var, .. } if var == "Err" => { if named_output == Some(true) && is_type == Some(true) { bad.push(format!("refuses although `Output` is there: [{}]", crate::model::cond_str(&st.cond))); } else { err_seen = true; } }
+            _ => {}
+        }
+    }
+    rep.check(ok_seen && err_seen && bad.is_empty(), "DM-output-type", &f.qual, "named-output", &format!("the carried-over `Output` is not exactly the user's associated type named `Output` (found / refused cases seen: {ok_seen} / {err_seen}; {})", bad.join("; ").chars().take(300).collect::<String>()), &site(&f), json!({}));
+}
+
 /// DM-impl-args: the requested set on an impl item - `Op` in the list <=> the binary form is requested, `OpAssign` <=> the
 /// assign form, an operator of another family is refused, `dump` is handed on
 pub fn impl_args_rule(cx: &Cx, rep: &mut Report) {
